@@ -6,6 +6,8 @@ fresh, identical targets:
   vfs     the target is opened as bzr://127.0.0.1:<port>/... (in-process SmartTCPServer
           thread over the same scratch directory), VFS verbs enabled
   novfs   the same with BRZ_NO_SMART_VFS set (HPSS verbs only)
+  oldsrv  (cases with "oldsrv": true) the same server with the post-1.12 verbs removed from its
+          request registry: the client meets UnknownSmartMethod and takes its VFS fallback paths
 After every operation the returned value (or exception class) is recorded and the
 target is read back LOCALLY from disk: tip, revno, tags, config values, revision
 set, lock status, payload (testament / file text) of the new revisions.
@@ -53,9 +55,9 @@ META = {
                     "one client at a time (the locker is a second branch object in the same process)"],
     "rule": "one case = one op sequence x 3 modes; non-trivial = at least 3 state-changing ops succeeded; distinct = distinct (input, observation)",
 }
-SHARD = 12
+SHARD = 4
 
-MODES = ("local", "vfs", "novfs")
+MODES = ("local", "vfs", "novfs", "oldsrv")
 FORMATS = ("2a", "1.9", "1.9-rich-root")
 # inventory serializer format numbers whose number is NOT a revision serializer format
 # (finding C32-iter-revisions-serializer): rich-root knit/pack formats
@@ -64,6 +66,16 @@ RICHROOT_OLD = ("1.9-rich-root",)
 TAGS = ["v1", "rel ease", "café", "é", "ｔａｇ", "x ", "a/b", "t\tab"]
 OPTS = ["verif.alpha", "verif.beta", "verif_under", "verif.gämma"]
 VALS = ["1", "plain value", "café ☃", "a=b # not a comment", "x" * 70, "très, comma", "'quoted'", ""]
+
+# verbs a pre-1.13 server does not know: the client falls back to VFS (_vfs_* / _ensure_real paths of remote.py)
+OLD_SERVER_LACKS = [
+    b"Branch.get_tags_bytes", b"Branch.set_tags_bytes", b"Branch.set_config_option", b"Branch.set_config_option_dict",
+    b"Branch.set_last_revision_info", b"Branch.set_last_revision_ex", b"Branch.revision_id_to_revno",
+    b"Repository.iter_revisions", b"Repository.insert_stream_1.19", b"Repository.insert_stream_locked",
+    b"Repository.insert_stream", b"Repository.get_stream_1.19", b"Repository.get_stream",
+    b"VersionedFileRepository.get_inventories", b"Repository.iter_files_bytes", b"Branch.heads_to_fetch",
+    b"Branch.get_all_reference_info", b"Repository.all_revision_ids", b"Repository.start_write_group",
+    b"Repository.commit_write_group", b"Repository.abort_write_group"]
 
 _state = {}
 
@@ -463,16 +475,42 @@ class _Run:
         return trace, [self.committed[k] for k in sorted(self.committed)]
 
 
+class _OldServer:
+    """Hide the modern verbs from the in-process server for the duration of one run."""
+
+    def __enter__(self):
+        from breezy.bzr.smart import request
+        reg = request.request_handlers
+        self.saved = {}
+        for k in OLD_SERVER_LACKS:
+            self.saved[k] = (reg._dict[k], reg._help_dict.get(k), reg._info_dict.get(k))
+            reg.remove(k)
+
+    def __exit__(self, *a):
+        from breezy.bzr.smart import request
+        reg = request.request_handlers
+        for k, (o, h, i) in self.saved.items():
+            reg._dict[k], reg._help_dict[k], reg._info_dict[k] = o, h, i
+
+
+def _modes(inp):
+    return MODES if inp.get("oldsrv") else MODES[:3]
+
+
 def impl(inp):
     _ensure()
     out = []
-    for mode in MODES:
+    for mode in _modes(inp):
         if mode == "novfs":
             os.environ["BRZ_NO_SMART_VFS"] = "1"
         else:
             os.environ.pop("BRZ_NO_SMART_VFS", None)
         try:
-            trace, sha = _Run(inp, mode).run()
+            if mode == "oldsrv":
+                with _OldServer():
+                    trace, sha = _Run(inp, mode).run()
+            else:
+                trace, sha = _Run(inp, mode).run()
         finally:
             os.environ.pop("BRZ_NO_SMART_VFS", None)
         out.append([trace, sha])
@@ -521,9 +559,10 @@ def _coq_op(op):
 
 def model_term(inp):
     init = inp.get("init")
-    return "run_case %s %s %s [%s]" % (
+    return "run_case %s %s %s %s [%s]" % (
         daglib.coq_dag(inp["g"]), "None" if init is None else f"(Some {init})",
-        coq_bool(inp["fmt"] not in RICHROOT_OLD), "; ".join(_coq_op(o) for o in inp["ops"]))
+        coq_bool(inp["fmt"] not in RICHROOT_OLD), coq_bool(bool(inp.get("oldsrv"))),
+        "; ".join(_coq_op(o) for o in inp["ops"]))
 
 
 def impl_obs(inp, obs):
@@ -543,7 +582,7 @@ def _discrepancies(inp, obs):
     including the first refused VFS-only operation)."""
     out = []
     local = obs[0][0]
-    for mi in (1, 2):
+    for mi in range(1, len(obs)):
         mode, tr = MODES[mi], obs[mi][0]
         if len(tr) != len(local):
             out.append((-1, mode, "other", "trace lengths differ"))
@@ -568,14 +607,15 @@ def _discrepancies(inp, obs):
                         and not isinstance(a[0], Err) and not isinstance(b[0], Err) \
                         and [e for e in a[0] if e[0] != -1] == b[0]:
                     kind = "C32-parent-map-null"
-                elif op[0] == "get_rev" and inp["fmt"] in RICHROOT_OLD and isinstance(b[0], Err) and str(b[0]) == "KeyError":
+                elif op[0] == "get_rev" and inp["fmt"] in RICHROOT_OLD and isinstance(b[0], Err) and str(b[0]) == "KeyError" \
+                        and mode != "oldsrv":
                     kind = "C32-iter-revisions-serializer"
                 elif op[0] == "genhist" and str(a[0]) == "GhostRevisionsHaveNoRevno" and str(b[0]) == "NoSuchRevision" \
                         and isinstance(a[0], Err) and isinstance(b[0], Err):
                     kind = "C32-genhist-absent-class"
             out.append((i, mode, kind, f"step {i} {op}: local {a!r} but {mode} {b!r}"))
-        if mode == "vfs" and obs[0][1] != obs[1][1]:
-            out.append((-1, mode, "other", "committed revisions differ: testaments %r vs %r" % (obs[0][1], obs[1][1])))
+        if mode in ("vfs", "oldsrv") and obs[0][1] != obs[mi][1]:
+            out.append((-1, mode, "other", "committed revisions differ: testaments %r vs %r" % (obs[0][1], obs[mi][1])))
         if mode == "novfs" and cut == len(local) and obs[0][1] != obs[2][1]:
             out.append((-1, mode, "other", "committed revisions differ: testaments %r vs %r" % (obs[0][1], obs[2][1])))
     # payload of every stored revision (all modes)
@@ -672,14 +712,15 @@ def _gen_ops(rng, g, nops, hpss_only=False, richroot=False, init=None):
             ops.append(["del_tag", t])
             tags_set.discard(t)
         elif x < 0.68:
-            ops.append(["set_conf", rng.randrange(len(OPTS)), rng.randrange(len(VALS)), int(rng.random() < 0.4)])
+            v = rng.choice([2, 5]) if rng.random() < 0.4 else rng.randrange(len(VALS))     # non-ASCII values often
+            ops.append(["set_conf", rng.randrange(len(OPTS)), v, int(rng.random() < 0.5)])
         elif x < 0.73:
             ops.append(["lock"])
             locked = True
         elif x < 0.79:
             ops.append(["unlock"])
             locked = False
-        elif x < 0.85:
+        elif x < 0.84:
             keys = [rev(0.3) for _ in range(rng.randint(1, 4))]
             r = rng.random()
             if r < 0.12:
@@ -688,13 +729,13 @@ def _gen_ops(rng, g, nops, hpss_only=False, richroot=False, init=None):
                 keys.insert(rng.randrange(len(keys) + 1), None)       # finding C32-parent-map-null
                 null_pm_used = True
             ops.append(["parent_map", keys])
-        elif x < 0.89:
+        elif x < 0.87:
             ops.append(["get_rev", rev()])
-        elif x < 0.91:
+        elif x < 0.88:
             ops.append(["lri"])
-        elif x < 0.95:
-            ops.append(["revno", rev()])
-        elif x < 0.97:
+        elif x < 0.94:
+            ops.append(["revno", rev(0.1)])
+        elif x < 0.955:
             ops.append(["revtree", rev()])
         else:
             ops.append(["genhist", rev(0.2)])
@@ -705,7 +746,7 @@ def _case(rng, g, fmt, nops, **kw):
     n = len(g)
     init = rng.randrange(n) if rng.random() < 0.4 else None
     richroot = fmt in RICHROOT_OLD
-    return {"fmt": fmt, "g": g, "init": init, "big": kw.get("big"),
+    return {"fmt": fmt, "g": g, "init": init, "big": kw.get("big"), "oldsrv": bool(kw.get("oldsrv")),
             "ops": _gen_ops(rng, g, nops, hpss_only=kw.get("hpss_only", False), richroot=richroot, init=init)}
 
 
@@ -715,23 +756,28 @@ def corpus():
         # finding witnesses
         {"fmt": "2a", "g": g, "init": 4, "big": None, "ops": [["parent_map", [None, 4]], ["parent_map", [None]]]},
         {"fmt": "1.9-rich-root", "g": g, "init": 4, "big": None, "ops": [["get_rev", 2], ["get_rev", 6], ["lri"]]},
-        {"fmt": "2a", "g": g, "init": None, "big": None, "ops": [["genhist", 6], ["push", 2, 0], ["genhist", 47], ["genhist", 6]]},
+        {"fmt": "2a", "g": g, "init": None, "big": None, "ops": [["genhist", 6], ["push", 2, 0], ["genhist", 47], ["genhist", 6], ["fetch", 4], ["genhist", 4], ["lri"], ["revno", 1]]},
         {"fmt": "1.9", "g": g, "init": 2, "big": None, "ops": [
             ["lock"], ["fetch", 4], ["fetch", 1], ["pull", 4, 0], ["commit"], ["del_tag", 3], ["genhist", 1], ["genhist", 4],
             ["set_conf", 1, 1, 1], ["pullfrom"], ["revno", 1], ["get_rev", 1], ["unlock"], ["fetch", 4], ["lock"], ["fetch", 6]]},
         # one sequence touching every operation, every format
     ] + [{"fmt": fmt, "g": g, "init": None, "big": None, "ops": [
-        ["push", 4, 0], ["lri"], ["pull", 6, 0], ["pull", 6, 1], ["fetch", 4], ["revno", 0], ["revno", 2],
+        ["push", 4, 0], ["lri"], ["revno", 3], ["revno", 1], ["revno", 4], ["set_conf", 3, 2, 1], ["set_conf", 2, 5, 1],
+        ["set_conf", 2, 7, 0], ["pull", 6, 0], ["pull", 6, 1], ["fetch", 4], ["revno", 0], ["revno", 2],
         ["parent_map", [4, 2, 6, 47, 0]], ["set_conf", 0, 2, 0], ["set_conf", 1, 3, 1], ["commit"], ["revtree", 4],
         ["lock"], ["set_tag", 1, 3], ["lock"], ["push", 4, 1], ["del_tag", 0], ["commit"], ["pull", 4, 1], ["fetch", 2],
         ["genhist", 2], ["set_conf", 0, 1, 0], ["pullfrom"], ["unlock"], ["unlock"], ["set_tag", 2, 3], ["set_tag", 5, 99],
         ["del_tag", 0], ["del_tag", 2], ["genhist", 5], ["genhist", 2], ["genhist", 60], ["pullfrom"], ["commit"],
-        ["revtree", 7], ["revtree", 30], ["push", 6, 0], ["push", 6, 1], ["push", 2, 0]]} for fmt in FORMATS[:1]]
+        ["revtree", 7], ["revtree", 30], ["push", 6, 0], ["push", 6, 1], ["push", 2, 0]]} for fmt in FORMATS[:1]] + [
+        {"fmt": fmt, "g": g, "init": 1, "big": None, "oldsrv": True, "ops": [
+            ["push", 4, 0], ["set_tag", 2, 3], ["set_conf", 3, 2, 1], ["set_conf", 0, 5, 0], ["pull", 6, 1], ["commit"],
+            ["revno", 3], ["revno", 2], ["get_rev", 5], ["revtree", 6], ["genhist", 4], ["genhist", 47], ["del_tag", 2],
+            ["lock"], ["set_tag", 1, 1], ["unlock"], ["pullfrom"], ["parent_map", [6, 47, 3]]]} for fmt in FORMATS[1:]]
 
 
 def cases(rng, tier):
     quick = tier == "quick"
-    nseq, maxn = (18, 9) if quick else (500, 14)
+    nseq, maxn = (12, 9) if quick else (220, 14)
     dags = list(FIXED)
     for k in range(nseq):
         if k % 3 == 0 or k >= len(dags):
@@ -739,13 +785,13 @@ def cases(rng, tier):
     for k in range(nseq):
         g = dags[k % len(dags)] if quick else rng.choice(dags)
         fmt = FORMATS[k % len(FORMATS)] if rng.random() < 0.6 else "2a"
-        yield _case(rng, g, fmt, rng.randint(6, 12 if quick else 15), hpss_only=(k % 4 == 3))
+        yield _case(rng, g, fmt, rng.randint(6, 10 if quick else 15), hpss_only=(k % 4 == 3), oldsrv=(k % 3 == 1))
     # size thresholds: file texts above the medium / stream buffer sizes (64 KiB, 1 MiB)
-    sizes = [[70000], [65536 - 3, 1100000]] if quick else [[70000], [65535, 65537], [1100000], [1048576 + 1, 300000]]
+    sizes = [[65536 - 3, 1100000]] if quick else [[70000], [65535, 65537], [1100000], [1048576 + 1, 300000]]
     for k, sz in enumerate(sizes):
         g = [[], [0], [1], [1], [2, 3]]
         big = {str(2 + j): s for j, s in enumerate(sz)}
-        yield {"fmt": FORMATS[k % 2] if not quick else "2a", "g": g, "init": None, "big": big,
+        yield {"fmt": FORMATS[k % 2] if not quick else "2a", "g": g, "init": None, "big": big, "oldsrv": True,
                "ops": [["push", 4, 0], ["revtree", 2], ["revtree", 3], ["pullfrom"], ["get_rev", 4], ["commit"], ["pullfrom"]]}
     if not quick:
         # a history longer than the client's get_parent_map search depth (100)
@@ -766,7 +812,8 @@ def distribution(inputs, observations):
         d["sequence_length"][k] = d["sequence_length"].get(k, 0) + 1
         d["hpss_only_sequences"] += not any(op[0] in VFS_ONLY for op in inp["ops"])
         d["big_file_cases"] += bool(inp.get("big"))
-        d["steps_total"] += 3 * len(inp["ops"])
+        d["steps_total"] += len(_modes(inp)) * len(inp["ops"])
+        d["old_server_cases"] = d.get("old_server_cases", 0) + bool(inp.get("oldsrv"))
         for op in inp["ops"]:
             d["ops"][op[0]] = d["ops"].get(op[0], 0) + 1
         if isinstance(o, Err):
